@@ -302,6 +302,16 @@ def run_shard(spec):
             res.exhaustive_parts.append(
                 "all strings over %r of length <= %d, all assignments (<=3 names) of referenced names"
                 % (ALPHABET, spec["maxlen"]))
+            # longer strings built from two or three references: same name in different letter
+            # case, the same reference twice, define- and environment-style references mixed
+            refs = ["$a", "$A", "${a}", "${A}", "$(a)", "$(A)", "$(Ab)", "$(aB)", "$(AB)", "${aB}", "$aB",
+                    "$$", "$_1", "$(_1)", "-"]
+            for n in (2, 3):
+                for t in itertools.product(refs, repeat=n):
+                    _run_string(res, "".join(t))
+                    if n == 2:
+                        _run_string(res, ":".join(t))
+            res.exhaustive_parts.append("all concatenations of 2 and 3 references drawn from %r" % (refs,))
         elif spec["part"] == "exh":
             for pre in spec["prefixes"]:
                 for L in range(0, spec["maxlen"] - 1):
